@@ -21,36 +21,41 @@ def op_conforming(world, line):
     return None
 
 
+def judge(w, line, rec, before, after, ov_before, conf, checks):
+    ps = []
+    if 'c01' in checks:
+        ps += [('C01',) + p for p in oracles.c01_symmetry(w)]
+    if 'c02' in checks:
+        ps += [('C02',) + p for p in oracles.c02_ownership(w)]
+        if rec.startswith('err') and oracles.owner_view(w) != ov_before:
+            ps.append(('C02', 'failed-op-changed-ownership', f'`{line}` raised but ownership changed', {}))
+    if 'c03' in checks:
+        ps += [('C03',) + p for p in oracles.c03_typed(w)]
+        if conf is not None:
+            single, ok, f = conf
+            if not ok and rec != 'err BadValueError':
+                ps.append(('C03', 'not-rejected', f'`{line}` offers a non-conforming value: {rec}', {}))
+            if not ok and single and after != before:
+                ps.append(('C03', 'rejected-but-changed', f'`{line}`: state changed', {}))
+            if ok and rec == 'err BadValueError':
+                ps.append(('C03', 'conforming-rejected', f'`{line}`: {rec}', {}))
+    return ps
+
+
 def run_history(rng, mm, nops, triggers=False, checks=('c01', 'c02', 'c03'), observe=True):
     w = store.World(mm, observe=observe)
     g = store.Gen(rng, mm, w, triggers=triggers)
     lines, recs, problems = [], [], []
     for step in range(nops):
         line = g.next_op()
-        conf = op_conforming(w, line)
+        conf = op_conforming(w, line) if 'c03' in checks else None
         before = w.dump()
         ov_before = oracles.owner_view(w) if 'c02' in checks else None
         rec = w.apply(line)
         after = w.dump()
         lines.append(line)
         recs.append((rec, after, list(w.notifs)))
-        ps = []
-        if 'c01' in checks:
-            ps += [('C01',) + p for p in oracles.c01_symmetry(w)]
-        if 'c02' in checks:
-            ps += [('C02',) + p for p in oracles.c02_ownership(w)]
-            if rec.startswith('err') and oracles.owner_view(w) != ov_before:
-                ps.append(('C02', 'failed-op-changed-ownership', f'`{line}` raised but ownership changed', {}))
-        if 'c03' in checks:
-            ps += [('C03',) + p for p in oracles.c03_typed(w)]
-            if conf is not None:
-                single, ok, f = conf
-                if not ok and rec != 'err BadValueError':
-                    ps.append(('C03', 'not-rejected', f'`{line}` offers a non-conforming value: {rec}', {}))
-                if not ok and single and after != before:
-                    ps.append(('C03', 'rejected-but-changed', f'`{line}`: state changed', {}))
-                if ok and rec == 'err BadValueError':
-                    ps.append(('C03', 'conforming-rejected', f'`{line}`: {rec}', {}))
+        ps = judge(w, line, rec, before, after, ov_before, conf, checks)
         for p in ps:
             problems.append((step, line) + p)
         if ps:
